@@ -26,7 +26,8 @@ PROPERTY = "C16"
 LEVEL = "exploration"
 RULE = (
     "case = (1..4 client addresses, <= 14 datagrams with scripted virtual arrival times incl. ties with handler completion instants, "
-    "per-request work in {0, 0.5, 1, 1.5} s, generator length k in {1,2,3,inf}, yielded timeout in {None, 0.5, 2}, malformed datagrams, "
+    "per-request work in {0, 0.5, 1, 1.5} s, generator length k in {1,2,3,inf}, wait bounded by a yielded timeout / a timeout() scope / a move_on_after() scope "
+    "around the yield with T in {None, 0 (polling handler), 0.5, 2}, malformed datagrams, "
     "listener kind in {scripted in-memory listener, real asyncio DatagramListenerProtocol fed by datagram_received}). non-trivial = "
     ">= 2 clients with overlapping handlers or a datagram arriving while its client's handler runs; distinct = distinct scripts"
 )
@@ -41,12 +42,16 @@ REQUIRED = [
     "two_clients_overlapping",
     "malformed_datagrams",
     "timeouts_thrown",
+    "expired_deadline_with_queued_datagram",
+    "handler_wait:timeout-scope",
+    "handler_wait:move-on-scope",
     "datagrams_checked",
     "listener:scripted",
     "listener:real-protocol",
 ]
 WATCHDOG = {"quick": 900, "thorough": 7200}
 EPS = 0.05
+POLL = 0.25
 
 
 def gen_script(rng: random.Random) -> dict:
@@ -64,7 +69,8 @@ def gen_script(rng: random.Random) -> dict:
     return {
         "arrivals": arrivals,
         "k": [rng.choice([1, 2, 3, None]) for _ in range(A)],
-        "timeout": [rng.choice([None, None, 0.5, 2.0]) for _ in range(A)],
+        "timeout": [rng.choice([None, None, 0.5, 2.0, 0, 0]) for _ in range(A)],
+        "tmode": [rng.choice(["yield", "yield", "timeout-scope", "move-on-scope"]) for _ in range(A)],
         "on_timeout": rng.choice(["continue", "stop"]),
         "reply": rng.random() < 0.5,
         "listener": rng.choice(["scripted", "scripted", "real-protocol"]),
@@ -155,13 +161,26 @@ def run_script(sc: dict) -> dict:
             got = 0
             k = sc["k"][a]
             try:
+                T = sc["timeout"][a]
+                tmode = sc.get("tmode", ["yield"] * (a + 1))[a] if T is not None else "yield"
                 while k is None or got < k:
                     try:
-                        req = yield sc["timeout"][a]
+                        if tmode == "yield":
+                            req = yield T
+                        elif tmode == "timeout-scope":
+                            with backend.timeout(T):
+                                req = yield None
+                        else:
+                            with backend.move_on_after(T) as ms:
+                                req = yield None
+                            if ms.cancelled_caught():
+                                raise TimeoutError
                     except TimeoutError:
                         log.append(("timeout", a, now()))
                         if sc["on_timeout"] == "stop":
                             return
+                        if not T:
+                            await asyncio.sleep(POLL)  # a polling handler: drain what is queued, then do something else for a while
                         continue
                     except DatagramProtocolParseError:
                         log.append(("bad", a, now()))
@@ -196,6 +215,17 @@ def run_script(sc: dict) -> dict:
         if serve.done():
             res["serve_exc"] = repr(serve.exception()) if not serve.cancelled() else "cancelled"
         serve.cancel()
+        # harness tear-down. A polling handler (timeout(0) scope around its yield) that polls in the very iteration of this cancel
+        # swallows it (the known C13 I5 mechanism: external cancel coincident with a scope's own cancel) and then polls for ever;
+        # that is not C16's subject: cancel again until every task is gone, and record that it was needed.
+        for attempt in range(50):
+            done, _pending = await asyncio.wait([serve], timeout=1.0)
+            if done:
+                break
+            res["teardown_recancelled"] = attempt + 1
+            for t in asyncio.all_tasks():
+                if t is not asyncio.current_task() and not t.done():
+                    t.cancel()
         await asyncio.gather(serve, return_exceptions=True)
         res["live"] = dict(live)
         await server.aclose()
@@ -234,6 +264,12 @@ def decide(sc: dict, res: dict, ctx=None) -> str | None:
                 return f"client {a}: datagram #{j} has seq {e[2]}, expected {x['seq']} (order / duplication)"
             t_seen = (e[3] if e[0] == "req" else e[2]) - t0
             start = max(x["t"], fin_prev)
+            if sc["timeout"][a] == 0 and sc["on_timeout"] == "continue":
+                # polling handler (yield 0 / sleep POLL): the datagram is seen at the next poll; nothing may be seen early or skipped
+                if not (start - EPS <= t_seen <= start + POLL + EPS):
+                    return f"client {a} (polling handler): datagram #{j} arrived at {x['t']}, own queue free at {fin_prev}, handled at {t_seen} (expected within {POLL} s after {start})"
+                fin_prev = t_seen + (0 if x["bad"] else x["work"])
+                continue
             if abs(t_seen - start) > EPS:
                 other = [y for y in sc["arrivals"] if y["addr"] != a and y["work"] > 0]
                 return f"client {a}: datagram #{j} arrived at {x['t']}, own queue free at {fin_prev}, handled at {t_seen} (expected {start})" + (" - delayed although only other clients were busy" if t_seen > start and other else "")
@@ -254,8 +290,21 @@ def decide(sc: dict, res: dict, ctx=None) -> str | None:
         ctx.count("datagrams_checked", len(sc["arrivals"]))
         if any(x["bad"] for x in sc["arrivals"]):
             ctx.count("malformed_datagrams")
+        if res.get("teardown_recancelled"):
+            ctx.count("harness_teardown_cancel_swallowed_by_handler_scope")
         if any(e[0] == "timeout" for e in log):
             ctx.count("timeouts_thrown")
+        # a wait with an already expired deadline while a datagram of that client is queued (second or later yield of a generator)
+        for a in range(A):
+            if sc["timeout"][a] == 0:
+                reqs = [e for e in log if e[0] == "req" and e[1] == a]
+                arrs_a = [x for x in sc["arrivals"] if x["addr"] == a]
+                if any(e[3] - t0 > arrs_a[j]["t"] + EPS for j, e in enumerate(reqs) if j < len(arrs_a)):
+                    ctx.count("expired_deadline_with_queued_datagram")
+                    break
+        for m in ("timeout-scope", "move-on-scope"):
+            if any(sc["timeout"][a] is not None and sc.get("tmode", [])[a] == m for a in range(A) if a < len(sc.get("tmode", []))):
+                ctx.count(f"handler_wait:{m}")
         # arrival at the very instant a handler finishes
         fins = {(e[1], e[3]) for e in log if e[0] == "gen-finally"}
         if any((e[1], e[3]) in fins for e in log if e[0] == "arrive"):
